@@ -11,7 +11,7 @@ PROOF_NOTE = ("Real-arithmetic semantics of the Python source (IEEE rounding/ove
               "every denominator met on an explored path is assumed nonzero; libm by Weierstrass / cone "
               "parametrisations and sqrt atoms (DESIGN 2.4); LU stub contract where a linear solve occurs; "
               "configuration grid and path bounds as in evidence.coverage.bounds; trusted: z3 5.1 nlsat, "
-              "CPython/numpy object-dtype kernels, the symx scalar+shim layer (./check selftest).")
+              "CPython/numpy object-dtype kernels, the symx scalar+shim layer (every case is re-run on the unshimmed float code with random inputs on every run).")
 
 # id -> (category, text, design_ref, technique, extra note)
 CLAIMED = {
